@@ -6,6 +6,8 @@ import (
 	"path/filepath"
 	"strings"
 	"sync"
+	"syscall"
+	"time"
 
 	"lndlint/internal/an"
 )
@@ -34,7 +36,43 @@ func RunGaps(s *Spec, repo string, load LoadFn, only string) []MutantResult {
 	return runMutantList(s, s.Gaps, repo, load, only)
 }
 
+// mutantSlot takes one of three machine-wide slots (advisory file locks in the
+// temporary directory) for the duration of a mutant run: every mutant is a
+// from-source load of the spec's packages with their dependencies, six of them
+// in parallel need about 9 GB, and twenty thorough checks started together
+// would not fit into memory. The lock files are created on demand.
+func mutantSlot() func() {
+	if os.Getenv("LNDLINT_NO_SLOT") != "" {
+		return func() {}
+	}
+	var files []*os.File
+	for k := 0; k < 3; k++ {
+		f, err := os.OpenFile(filepath.Join(os.TempDir(), fmt.Sprintf("lndlint-mutants.%d.lock", k)), os.O_CREATE|os.O_RDWR, 0o666)
+		if err != nil {
+			continue
+		}
+		files = append(files, f)
+	}
+	if len(files) == 0 {
+		return func() {}
+	}
+	for {
+		for _, f := range files {
+			if syscall.Flock(int(f.Fd()), syscall.LOCK_EX|syscall.LOCK_NB) == nil {
+				return func() {
+					syscall.Flock(int(f.Fd()), syscall.LOCK_UN)
+					for _, g := range files {
+						g.Close()
+					}
+				}
+			}
+		}
+		time.Sleep(2 * time.Second)
+	}
+}
+
 func runMutantList(s *Spec, list []Mutant, repo string, load LoadFn, only string) []MutantResult {
+	defer mutantSlot()()
 	var sel []Mutant
 	for _, m := range list {
 		if only == "" || strings.Contains(m.Name, only) {
